@@ -633,18 +633,21 @@ impl AssemblyCode {
                         AsmMnemonic::DEC | AsmMnemonic::INC => {
                             // The flags now describe the incremented memory location
                             flags = FlagsState::Unknown;
+                            // The modified location may be the one a register mirrors, even
+                            // if it is spelled differently (tab,X and tab,Y when X == Y):
+                            // like a store, forget every register loaded from memory
                             if let Some(v) = &accumulator {
-                                if v.eq(&inst.dasm_operand) {
+                                if !v.starts_with("#") {
                                     accumulator = None;
                                 }
                             }
                             if let Some(v) = &x_register {
-                                if v.eq(&inst.dasm_operand) {
+                                if !v.starts_with("#") {
                                     x_register = None;
                                 }
                             }
                             if let Some(v) = &y_register {
-                                if v.eq(&inst.dasm_operand) {
+                                if !v.starts_with("#") {
                                     y_register = None;
                                 }
                             }
